@@ -155,7 +155,7 @@ func c27Check(r *vrt.R, st *c27Stats, uri string) {
 	full := append([]byte(nil), u.FullURI()...)
 	if string(full) != uri {
 		st.changed++
-		r.NontrivialHash(c26hashC27(uri))
+		r.NontrivialHash(c27hash(uri))
 	}
 	cmp := func(stage string, got, want c27Parts, comps string, serial []byte) {
 		done := false // one violation per stage: the first component (scheme, host, path, query, fragment, args) that differs
@@ -236,7 +236,7 @@ func c27Check(r *vrt.R, st *c27Stats, uri string) {
 	}
 }
 
-func c26hashC27(s string) uint64 { // FNV-1a (own copy: C26's helper lives in another file that --solo does not compile)
+func c27hash(s string) uint64 { // FNV-1a (own copy: C26's helper lives in another file that --solo does not compile)
 	h := uint64(14695981039346656037)
 	for i := 0; i < len(s); i++ {
 		h ^= uint64(s[i])
